@@ -847,6 +847,10 @@ int parity_write(struct snapraid_parity_handle* handle, block_off_t pos, unsigne
 	struct snapraid_split_handle* split;
 	int ret;
 
+	/* clear errno, because the callers check it to identify input/output errors, */
+	/* and a failure not caused by a system call doesn't set it */
+	errno = 0;
+
 	offset = pos * (data_off_t)block_size;
 
 	split = parity_split_find(handle, &offset);
@@ -866,6 +870,9 @@ int parity_write(struct snapraid_parity_handle* handle, block_off_t pos, unsigne
 	write_ret = pwrite(split->f, block_buffer, block_size, offset);
 	if (write_ret != (ssize_t)block_size) { /* conversion is safe because block_size is always small */
 		/* LCOV_EXCL_START */
+		/* a short write doesn't set errno, and it means that the space is exhausted */
+		if (write_ret >= 0)
+			errno = ENOSPC;
 		if (errno == ENOSPC) {
 			log_fatal("Failed to grow parity file '%s' using write due lack of space.\n", split->path);
 		} else {
@@ -893,6 +900,10 @@ int parity_read(struct snapraid_parity_handle* handle, block_off_t pos, unsigned
 	unsigned count;
 	struct snapraid_split_handle* split;
 	int ret;
+
+	/* clear errno, because the callers check it to identify input/output errors, */
+	/* and a failure not caused by a system call doesn't set it */
+	errno = 0;
 
 	offset = pos * (data_off_t)block_size;
 
@@ -925,7 +936,7 @@ int parity_read(struct snapraid_parity_handle* handle, block_off_t pos, unsigned
 		}
 		if (read_ret == 0) {
 			/* LCOV_EXCL_START */
-			out("Unexpected end of file '%s' at offset %" PRIu64 ". %s.\n", split->path, offset, strerror(errno));
+			out("Unexpected end of file '%s' at offset %" PRIu64 ".\n", split->path, offset);
 			return -1;
 			/* LCOV_EXCL_STOP */
 		}
